@@ -440,8 +440,22 @@ def _literal_types_ok(E):
                     continue       # judged where it is inlined
             a = call_args(x.node)[-1]
             d = def_path(a)
-            if d in ("types::Type::Ip", "types::Type::Bytes", "types::Type::Int"):
+            ok_types = ("types::Type::Ip", "types::Type::Bytes", "types::Type::Int")
+            lb = S.lookup(sem.peel(a), x.frame)
+            looped = None
+            if lb is not None and lb.kind == "loopvar" and lb.expr is not None:
+                # `for ty in [Type::Ip, Type::Int, Type::Bytes]`
+                nx = sem.peel(lb.expr)
+                it_ = sem.peel(nx["args"][0]) if nx.get("args") else {}
+                ib = S.lookup(it_, lb.frame)
+                src_ = sem.peel(ib.expr) if ib is not None and ib.expr is not None else {}
+                arr = sem.peel(src_["args"][0]) if src_.get("k") == "Call" and src_.get("args") else {}
+                if arr.get("k") == "Array":
+                    looped = [def_path(e_) for e_ in arr["es"]]
+            if d in ok_types:
                 ok = True
+            elif looped is not None:
+                ok = bool(looped) and all(t_ in ok_types for t_ in looped)
             else:
                 adm = sem.admitted_tuples(x.pc, [lambda v, x=x, a=a: S.same(v.node, v.frame, a, x.frame)], [UT])
                 ok = {last_seg(t[0]) for t in adm} <= {"Ip", "Bytes", "Int"}
